@@ -33,6 +33,12 @@ def corpus():
         for data in (b"", b"\n", b"\xef\xbb\xbf", b"// nothing here\n"):
             for bk, fsk in ((None, "native"), ("ok", "mem")):
                 out.append({"fmt": fmt, "data": data.hex(), "try": None, "explicit": None, "output": False, "backup": bk, "ops": [["attr", "title", "now it has one"]], "fs": fsk, "seed": 6})
+    # names with more than one dot, and content that a sniffer would take for the other format
+    for stem in ("Mr. Saturn", "v1.2", "a.ssc", "b.sm"):
+        out.append({"fmt": "sm", "stem": stem, "data": b"#VERSION:0.83;\n#TITLE:a;\n#NOTES:a:b:c:d:e:\n0000\n;\n".hex(), "try": None, "explicit": None,
+                    "output": False, "backup": "ok", "ops": [], "fs": "native", "seed": 7})
+        out.append({"fmt": "ssc", "stem": stem, "data": b"#TITLE:a;\n#NOTEDATA:;\n#NOTES:0000\n;\n".hex(), "try": None, "explicit": None,
+                    "output": False, "backup": None, "ops": [["attr", "title", "b"]], "fs": "mem", "seed": 8})
     return out
 
 
@@ -48,8 +54,10 @@ def gen(rng, i, tier):
         if rng.random() < 0.12:
             # a chartless file that ends on its last character, a non-ASCII one: no terminator, no line break (what an earlier encoding of
             # the tried list may see as a truncated sequence)
-            head = ("#VERSION:0.83;\n" if fmt == "ssc" and rng.random() < 0.7 else "") + "#TITLE:%s;\n#BPMS:0.000=120.000;\n#GENRE:" % F.rand_str(r, codec, 3)
+            head = ("#VERSION:0.83;\n" if fmt == "ssc" and rng.random() < 0.5 else "") + "#TITLE:%s;\n#BPMS:0.000=120.000;\n#GENRE:" % F.rand_str(r, codec, 3)
             data = (head + F.rand_str(r, codec, 2)).encode(codec) + rng.choice(["\u00e9".encode("cp1252"), F.rand_str(r, codec, 1).encode(codec)])
+    if fmt == "sm" and rng.random() < 0.12:
+        data = b"#VERSION:0.83;\n" + data            # an SM file may carry a VERSION property: the name decides the format, not the content
     tr = None
     if rng.random() < 0.3:
         tr = list(F.DEFAULT_ENCODINGS); rng.shuffle(tr)
@@ -65,7 +73,8 @@ def gen(rng, i, tier):
                                ["attr", "displaybpm", rng.choice(["120 : 240", " 150 ", "90:180", "*"])], ["set", "GENRE", "  padded value \n"],
                                ["notes", rng.choice(["1000\n0:00", "10;0\n0000", "00\\00\n0001", "0000 // beat 1\n0000", "{tornado:1.5}0\n0000"])]]))
     return {"fmt": fmt, "data": data.hex(), "try": tr, "explicit": rng.choice([None, None, None, det, "utf-8"]), "output": rng.choice([False, False, False, True, True, "same"]),
-            "backup": rng.choice([None, None, "ok", "ok", "clash_input", "clash_output"]), "ops": ops, "fs": rng.choice(["native", "mem"]), "seed": seed}
+            "backup": rng.choice([None, None, "ok", "ok", "clash_input", "clash_output"]), "ops": ops, "fs": rng.choice(["native", "mem"]), "seed": seed,
+            "stem": rng.choice(["in", "in", "in", "Mr. Saturn", "v1.2", "a.ssc", "b.sm", "Vol. 2 (feat. X)"])}
 
 
 def parse_as(fmt, path, enc, fsys):
@@ -78,16 +87,21 @@ def parse_as(fmt, path, enc, fsys):
     return (SSCSimfile if fmt == "ssc" else SMSimfile)(string=text)
 
 
+def inname(c):
+    """the input file's own name: mostly in.<fmt>; sometimes a name with further dots in it (the format is what follows the LAST dot)"""
+    return c.get("stem", "in") + "." + c["fmt"]
+
+
 def names(c, sc):
     out = sc.input if c["output"] == "same" else sc.path("out." + c["fmt"]) if c["output"] else None      # "same": the input's own name given as the output name
-    bak = {None: None, "ok": sc.path("in." + c["fmt"] + ".bak"), "clash_input": sc.input, "clash_output": out or sc.input}[c["backup"]]
+    bak = {None: None, "ok": sc.path(inname(c) + ".bak"), "clash_input": sc.input, "clash_output": out or sc.input}[c["backup"]]
     return out, bak
 
 
 def impl(c):
     import simfile
     data = bytes.fromhex(c["data"])
-    sc = F.Scenario(c["fs"], "in." + c["fmt"], data)
+    sc = F.Scenario(c["fs"], inname(c), data)
     try:
         fsys = F.FaultFS(sc.inner)
         out, bak = names(c, sc)
@@ -171,7 +185,7 @@ def cached_impl(c):
 def paths(c):
     # the scenario root differs per run on the native file system: the model works on canonical names, mapped back when comparing
     root = "/song"
-    inp = root + "/in." + c["fmt"]
+    inp = root + "/" + inname(c)
     out = inp if c["output"] == "same" else root + "/out." + c["fmt"] if c["output"] else None
     bak = {None: None, "ok": inp + ".bak", "clash_input": inp, "clash_output": out or inp}[c["backup"]]
     return inp, out, bak
